@@ -90,6 +90,30 @@ class C16(PropBase):
                 rep.nontriv((tuple(lines), str(flt), count, u))
             rep.count("filter=" + ("none" if flt is None else str(len(flt))))
         rep.sample({"lines": [l for l, _ in st][:6], "filter": flt, "expected_counter_line": want})
+        # the same through the built binary: -c / -f given the way a user gives them (several -f, long names, a value that names no format)
+        cli = core.build_cli(False)
+        for argv, flt2, cnt in ((["-c"], None, True), (["-c", "-f", "17", "-f", "4"], [17, 4], True), (["-f", "17", "-c", "-f", "11"], [17, 11], True),
+                                (["--count-df", "--filter", "5"], [5], True), (["-c", "-f", "4294967295", "-f", "20"], [4294967295, 20], True),
+                                (["-f", "17"], [17], False)):
+            st2 = self.stream(rng, rng.randrange(40, 120))
+            rc, screens, err = core.cli_screens(cli, ["-i", "e", "-d", "600"] + argv, [l for l, _ in st2], run.dir)
+            rep.evaluations += len(st2)
+            if rc != 0 or not screens:
+                self.fail(rep, f"squitterator {' '.join(argv)!r}: exit status {rc}, {len(screens)} screens ({err[-200:]!r})", {"ops": [], "cli_args": argv})
+                return
+            exp2 = {}
+            for l, d in st2:
+                if d is not None and (flt2 is None or d in flt2):
+                    exp2[d] = exp2.get(d, 0) + 1
+            want2 = "".join(f"DF{k}:{exp2[k]} " for k in sorted(exp2)).strip() if cnt else ""
+            cl = [l.strip() for l in screens[-1] if re.fullmatch(r"(DF\d+:-?\d+ ?)+", l.strip())]
+            got2 = cl[-1] if cl else ""
+            if got2 != want2:
+                self.fail(rep, f"squitterator {' '.join(argv)!r}: the counter line shows {got2!r}, the accepted frames are {want2!r}",
+                          {"ops": ["reset", gen.cfg_op(count=cnt, filter=flt2, show=1, groups="e", delete_after=600)] + gen.seg([l for l, _ in st2]) + ["dump"],
+                           "cli_args": argv, "expected_counter_line": want2})
+                return
+            rep.nontriv(("cli-count", tuple(argv)))
         # frames the filter rejects leave table AND counters untouched - also the sweep counter: with a silent aircraft older
         # than delete_after in the table, many rejected frames among few listed ones must not bring the expiry sweep forward
         for c in range(12 if tier == "quick" else 200):
